@@ -35,7 +35,7 @@ def run(ctx):
             elif ba.exit == 0:
                 if sorted(ba.started) != sorted(bb.started): diffs.append('commands run %s vs %s (inlined)' % (sorted(ba.started), sorted(bb.started)))
                 fa = {n: c for n, (m, c) in ba.files.items() if not n.endswith('.d')}; fb = {n: c for n, (m, c) in bb.files.items() if not n.endswith('.d')}
-                fa.pop('build.ninja', None); fb.pop('build.ninja', None)
+                fa.pop('build.ninja', None); fb.pop('build.ninja', None); fa.pop('part.ninja', None); fb.pop('part.ninja', None)
                 if fa != fb: diffs.append('final files differ: %s' % sorted(n for n in set(fa) | set(fb) if fa.get(n) != fb.get(n))[:5])
             for name, bad in (('order (dyndep)', ec.oracle_c04(a, sa, ba)), ('order (inlined)', ec.oracle_c04(b, sb, bb))):
                 if bad: diffs.append(name + ': ' + bad[0])
@@ -53,8 +53,8 @@ def run(ctx):
                 roots = {o for o in extra if late_restat(o)}
                 below = set()
                 for o in roots: below |= {x.out0 for x in g_.edges if x.idx in g_.dependents_of(prod_[o])}
-                fa_ = {n: c for n, (m, c) in ba.files.items() if not n.endswith('.d') and n != 'build.ninja'}
-                fb_ = {n: c for n, (m, c) in bb.files.items() if not n.endswith('.d') and n != 'build.ninja'}
+                fa_ = {n: c for n, (m, c) in ba.files.items() if not n.endswith('.d') and n not in ('build.ninja', 'part.ninja')}
+                fb_ = {n: c for n, (m, c) in bb.files.items() if not n.endswith('.d') and n not in ('build.ninja', 'part.ninja')}
                 if roots and extra <= (roots | below) and not (set(bb.started) - set(ba.started)) and fa_ == fb_:
                     ctx.known_finding('id=dyndep-restat-known-late %s build %d: %s' % (a.sid, k, diffs[0][:200])); diffs = []
             if diffs and 'restat-prune-ignores-recorded-deps' in known and ba.exit == 0 and bb.exit == 0:
